@@ -135,7 +135,11 @@ def explore(name, kw, extra, meta, mons, budget, max_depth=60):
         if s is None or getattr(sess, 'crashed', False) or not s.status or len(ops) >= max_depth:
             leaves.append((ops, sess))
             continue
-        ch = choices(s)
+        try:
+            ch = choices(s)
+        except Exception:  # noqa: BLE001  a query that raises: this branch ends here (the lock-step stream and
+            sess.crashed = True             # the C07 / C08 monitors of the other streams report the query)
+            ch = []
         if not ch:
             leaves.append((ops, sess))
             continue
